@@ -1211,7 +1211,11 @@ class C17(Prop):
   translators = [t_c17.run]
   case_timeout_s = 40
   jobs_quick = 6
-  rule = ('ROUND 4 additions: call = creating an object inside a detour, a destination FUNCTION runs a sub-program '
+  rule = ('ROUND 5 additions: make/enter/stack = a manager OBJECT created at one point and entered at another '
+          '(outside / inside another scope of the same manager, after the creating scope ended, by another thread, '
+          'as an ExitStack list, a second time) for all 20 managers with an object form; failenter = an entry the '
+          'library rejects (7 kinds + exhausted @contextmanager objects), alone and inside scopes of the same and '
+          'other managers. ROUND 4 additions: call = creating an object inside a detour, a destination FUNCTION runs a sub-program '
           '(returns, raises, creates the class again, opens nested detours); falsy family: for every manager a '
           'None/False/0/empty setting nested under and next to truthy ones while a second thread holds a truthy '
           '(dynamic evaluation: process-wide) setting, deterministic hand-offs; ContextualObject.override on one '
